@@ -27,11 +27,15 @@ NView(n)      == [name |-> n.name, local |-> n.local, addr |-> n.addr, hidden |-
 ProjSheet(sh) == [sh EXCEPT !.names = {NView(n) : n \in sh.names}]
 ProjWb(w)     == [sheets |-> [i \in DOMAIN w.sheets |-> ProjSheet(w.sheets[i])], active |-> w.active,
                   names |-> {NView(n) : n \in w.names}, prot |-> w.prot]
-ObsSheet(o)   == [name |-> o.name, state |-> o.state, merges |-> ToSet(o.merges), links |-> ToSet(o.links),
+ObsSheet(o)   == [name |-> o.name, state |-> o.state, code |-> o.code, merges |-> ToSet(o.merges), links |-> ToSet(o.links),
                   comments |-> ToSet(o.comments), dvs |-> ToSet(o.dvs), cfs |-> ToSet(o.cfs), af |-> o.af, tab |-> o.tab,
                   views |-> o.views, ps |-> o.ps, hf |-> o.hf, prot |-> o.prot, names |-> ToSet(o.names)]
 ObsWb(o)      == [sheets |-> [i \in DOMAIN o.sheets |-> ObsSheet(o.sheets[i])], active |-> o.active,
                   names |-> ToSet(o.names), prot |-> o.prot]
+(* the code name of a sheet is carried (it shares the sheetPr element with the tab colour) but is not part of the   *)
+(* property: it is left out of the comparison of the reloaded workbook and then follows the observation           *)
+NoCode(pw)      == [pw EXCEPT !.sheets = [i \in DOMAIN @ |-> [@[i] EXCEPT !.code = <<>>]]]
+WithCode(w, pw) == [w EXCEPT !.sheets = [i \in DOMAIN @ |-> [@[i] EXCEPT !.code = pw.sheets[i].code]]]
 (* nothing listed twice *)
 NoDupSheet(o) == /\ Len(o.merges) = Cardinality(ToSet(o.merges)) /\ Len(o.links) = Cardinality(ToSet(o.links))
                  /\ Len(o.comments) = Cardinality(ToSet(o.comments)) /\ Len(o.dvs) = Cardinality(ToSet(o.dvs))
@@ -183,10 +187,10 @@ ProtOf(e) == [k \in FlagKeys |-> IF k \in DOMAIN e.flags THEN e.flags[k] ELSE FA
 ViewOf(e) == [pane |-> e.pane, sel |-> e.sel, tl |-> e.tl, tabsel |-> e.tabsel]
 CfOf(e)   == [sqref |-> e.sqref, rules |-> e.rules]
 
-SheetOps == {"Rename", "RemoveSheet", "SetState", "AddMerge", "AddLink", "AddComment", "AddDv", "AddCf", "SetAf", "SetTab",
+SheetOps == {"Rename", "RemoveSheet", "SetState", "AddMerge", "AddLink", "AddComment", "AddDv", "AddCf", "SetAf", "SetTab", "SetCodeName",
              "SetView", "SetPageSetup", "SetHf", "SetProt"}
 InContract(e) ==
-  /\ e.a \in SheetOps \cup {"AddSheet", "SetActive", "AddName", "SetWbProt"}
+  /\ e.a \in SheetOps \cup {"AddSheet", "SetActive", "AddName", "SetWbProt", "SetMacros"}
   /\ (e.a \in SheetOps => e.s \in DOMAIN wb.sheets)
   /\ CASE e.a = "RemoveSheet" -> CanRemoveSheet(wb, e.s)
        [] e.a = "Rename"      -> CanRename(wb, e.s)
@@ -206,8 +210,10 @@ Post(e) ==
     [] e.a = "SetState"     -> SetStateP(wb, e.s, e.state)
     [] e.a = "SetActive"    -> SetActiveP(wb, e.i)
     [] e.a = "AddMerge"     -> AddMergeP(wb, e.s, e.range)
-    [] e.a = "AddLink"      -> AddLinkP(wb, e.s, e.cell, e.url, e.loc)
-    [] e.a = "AddComment"   -> AddCommentP(wb, e.s, e.r, e.c, e.author, e.text)
+    [] e.a = "AddLink"      -> AddLinkP(wb, e.s, e.cell, e.url, e.loc, e.tip)
+    [] e.a = "AddComment"   -> AddCommentP(wb, e.s, e.r, e.c, e.author, CatRuns(e.runs, 1))
+    [] e.a = "SetCodeName"  -> SetCodeP(wb, e.s, e.code)
+    [] e.a = "SetMacros"    -> wb          \* (a workbook with macros: every sheet is written with a code name; not modelled further)
     [] e.a = "AddName"      -> AddNameP(wb, e.home, NameOf(e))
     [] e.a = "AddDv"        -> AddDvP(wb, e.s, [k \in DvKeys |-> e[k]])
     [] e.a = "AddCf"        -> AddCfP(wb, e.s, CfOf(e))
@@ -234,17 +240,17 @@ SaveLoadStep(e) ==
   LET want  == Want
       post  == ObsWb(e.post)
       sound == NoDup(e.post) /\ e.post.activeOk = e.pre.activeOk /\ e.post.activeName = e.pre.activeName
-  IN IF sound /\ FileOK(e, wb, {}) /\ post = ProjWb(want)
-     THEN wb' = want
+  IN IF sound /\ FileOK(e, wb, {}) /\ NoCode(post) = NoCode(ProjWb(want))
+     THEN wb' = WithCode(want, post)
      ELSE LET K    == Kon(e)
-              exp  == ProjWb(Dev(want, e, K, post))
-              used == {k \in K : ProjWb(Dev(want, e, K \ {k}, post)) # exp \/ ~FileOK(e, wb, K \ {k})}
+              exp  == NoCode(ProjWb(Dev(want, e, K, post)))
+              used == {k \in K : NoCode(ProjWb(Dev(want, e, K \ {k}, post))) # exp \/ ~FileOK(e, wb, K \ {k})}
           IN /\ wb' = Resync(e.post, want)
-             /\ IF K # {} /\ sound /\ FileOK(e, wb, K) /\ post = exp
+             /\ IF K # {} /\ sound /\ FileOK(e, wb, K) /\ NoCode(post) = exp
                 THEN \A k \in used : KFHit("C06-" \o k, l)
                 ELSE Mismatch(l, <<"impl", "SaveLoad", IF ~sound THEN <<"duplicate item or active sheet", e.pre.activeName, e.post.activeName>>
                                                       ELSE IF ~FileOK(e, wb, K) THEN <<"file", FileDiff(e, wb, K)>>
-                                                      ELSE Diff(exp, post), "deviations tried", K>>)
+                                                      ELSE Diff(exp, NoCode(post)), "deviations tried", K>>)
 
 Ev == Rec[l]
 Step(e) ==
